@@ -2,7 +2,10 @@ use std::error::Error;
 use std::net::SocketAddr;
 use std::sync::atomic::{AtomicBool, AtomicU64, Ordering};
 use std::sync::Arc;
+#[cfg(not(datacake_verif))]
 use std::time::{Duration, Instant};
+#[cfg(datacake_verif)]
+use {std::time::Duration, tokio::time::Instant};
 
 use async_trait::async_trait;
 use datacake_crdt::{HLCTimestamp, Key};
